@@ -799,7 +799,71 @@ type iterV struct {
 }
 
 func (ex *Exec) rangeInit(fr *Frame, x *ssa.Range, st *State) Val {
+	if mt, ok := under(x.X.Type()).(*types.Map); ok {
+		// ghost set of the keys this iteration has produced so far, kept per map object (nested
+		// iterations over the same map object are not distinguished)
+		if _, _, _, ks, supported := mapComps(mt); supported {
+			m := ex.term(fr, x.X)
+			n, srt := seenComp(mt, ks)
+			ex.setAt(st, n, Store(ex.get(st, n, srt), m, ConstArr(ArrSort(ks, SBool), False)), m)
+			has, _, _, _, _ := mapComps(mt)
+			ex.setAt(st, n+":count", Store(ex.get(st, n+":count", ArrSort(SRef, BV(64))), m, BVu(0, 64)), m)
+			ex.setAt(st, n+":has0", Store(ex.get(st, n+":has0", srt), m, Select(ex.get(st, has, srt), m)), m)
+		}
+	}
 	return Fresh("iter", SRef)
+}
+
+// mapWrittenInLoop: is a map of this type updated or deleted from in a block that lies on a
+// cycle through the block of the iterator's Next instruction?
+func (ex *Exec) mapWrittenInLoop(x *ssa.Next, mt *types.Map) bool {
+	home := x.Block()
+	// natural loop of the header (the block of Next): blocks dominated by it from which it can be
+	// reached again through dominated blocks only
+	inLoop := map[*ssa.BasicBlock]bool{}
+	var back func(b *ssa.BasicBlock)
+	back = func(b *ssa.BasicBlock) {
+		for _, p := range b.Preds {
+			if !inLoop[p] && home.Dominates(p) {
+				inLoop[p] = true
+				if p != home {
+					back(p)
+				}
+			}
+		}
+	}
+	back(home)
+	inLoop[home] = true
+	for _, b := range home.Parent().Blocks {
+		if !inLoop[b] {
+			continue
+		}
+		for _, in := range b.Instrs {
+			switch i := in.(type) {
+			case *ssa.MapUpdate:
+				if types.Identical(under(i.Map.Type()), mt) {
+					return true
+				}
+			case *ssa.Call:
+				if bi, ok := i.Call.Value.(*ssa.Builtin); ok && (bi.Name() == "delete" || bi.Name() == "clear") {
+					return true
+				}
+				if !isBuiltinOrPure(i) {
+					// an opaque call could reach the map through the heap
+					if _, isMap := under(i.Call.Value.Type()).(*types.Map); isMap {
+						return true
+					}
+				}
+			}
+		}
+	}
+	return false
+}
+
+func isBuiltinOrPure(c *ssa.Call) bool { _, ok := c.Call.Value.(*ssa.Builtin); return ok }
+
+func seenComp(mt *types.Map, ks string) (string, string) {
+	return "iter:seen:" + typeKey(mt.Key()), ArrSort(SRef, ArrSort(ks, SBool))
 }
 
 func (ex *Exec) rangeNext(fr *Frame, x *ssa.Next, st *State, pc **Term) Val {
@@ -841,6 +905,27 @@ func (ex *Exec) rangeNext(fr *Frame, x *ssa.Next, st *State, pc **Term) Val {
 		k := ex.mapKey(mt.Key(), kv)
 		hs := ArrSort(SRef, ArrSort(ks, SBool))
 		ex.pendingAssume = append(ex.pendingAssume, Implies(ok, And(Neq(m, Null), Select(Select(ex.get(st, has, hs), m), k))))
+		// every present key is produced exactly once: a produced key was not seen before and is
+		// seen afterwards; when the iteration ends every key still present has been seen (keys
+		// inserted during the iteration may or may not be produced: the loops under contract do
+		// not insert, and an insertion only makes this fact weaker than the run-time behaviour
+		// for keys it does not constrain)
+		sn, ssrt := seenComp(mt, ks)
+		seenAll := ex.get(st, sn, ssrt)
+		seen := Select(seenAll, m)
+		ex.pendingAssume = append(ex.pendingAssume, Implies(ok, Not(Select(seen, k))))
+		if !ex.mapWrittenInLoop(x, mt) {
+			q := Bound("k", ks)
+			ex.pendingAssume = append(ex.pendingAssume, Implies(Not(ok), Forall([]*Term{q}, Implies(And(Select(Select(ex.get(st, sn+":has0", ssrt), m), q), Select(Select(ex.get(st, has, hs), m), q)), Select(seen, q)))))
+		}
+		ex.setAt(st, sn, Store(seenAll, m, Ite(ok, Store(seen, k, True), seen)), m)
+		// number of keys produced so far: never more than the map holds
+		cn, csrt := sn+":count", ArrSort(SRef, BV(64))
+		cnt := Select(ex.get(st, cn, csrt), m)
+		if !ex.mapWrittenInLoop(x, mt) {
+			ex.pendingAssume = append(ex.pendingAssume, Implies(ok, BVCmp("bvslt", cnt, ex.mapLen(st, mt, m))))
+		}
+		ex.setAt(st, cn, Store(ex.get(st, cn, csrt), m, Ite(ok, BVOp("bvadd", cnt, BVu(1, 64)), cnt)), m)
 		if validT(vt) {
 			fs := flat(vv)
 			for i, l := range leaves(mt.Elem()) {
